@@ -236,6 +236,28 @@ class Rewrites:
                 add("interface-field-missing", "extend type %s implements %s without its fields" % (o.name, i.name),
                     extra=["extend type %s implements %s {\n  unrelatedExtra_: Int\n}" % (o.name, i.name)])
 
+        # ---- the same breaches through an extension that carries ONLY `implements`
+        for o in self.pick(objs(s)):
+            free = [i for i in ifaces if i.name not in o.interfaces and not all(fn in o.fields for fn in i.fields)]
+            if free:
+                i = rng.choice(free)
+                add("interface-field-missing", "interface-only `extend type %s implements %s` without its fields" % (o.name, i.name),
+                    extra=["extend type %s implements %s" % (o.name, i.name)])
+            if o.interfaces:
+                add("extend-duplicate-member", "interface-only `extend type %s implements %s` (already implemented)" % (o.name, o.interfaces[0]),
+                    extra=["extend type %s implements %s" % (o.name, o.interfaces[0])])
+            others = [x.name for x in objs(s) if x.name != o.name]
+            if others:
+                add("implements-non-interface", "interface-only `extend type %s implements` object %s" % (o.name, others[0]),
+                    extra=["extend type %s implements %s" % (o.name, others[0])])
+            add("implements-non-interface", "interface-only `extend type %s implements` unknown" % o.name,
+                extra=["extend type %s implements NoSuchInterface_" % o.name])
+        if ifaces:
+            add("extend-unknown-target", "interface-only extend type of an unknown target", extra=["extend type NoSuchTarget_ implements %s" % ifaces[0].name])
+            for t in self.pick([t for t in s.types.values() if t.kind != "OBJECT"]):
+                add("extend-wrong-kind", "interface-only extend type applied to %s %s" % (t.kind, t.name),
+                    extra=["extend type %s implements %s" % (t.name, ifaces[0].name)])
+
         # ---- roots
         if s.query == "Query" and not any(named_of(f.type) == "Query" for t in of_kind(s, "OBJECT", "INTERFACE") for f in t.fields.values()) \
                 and not any("Query" in u.members for u in of_kind(s, "UNION")):
